@@ -663,15 +663,29 @@ impl Ctx {
             R::Ok(r) => format!("(Ok {})", sym.root_lit(r)),
             o => o.lit(),
         };
+        let o_client_ord = match &ev.client {
+            R::Ok(c) => format!(
+                "(Ok {})",
+                gal::nlist(
+                    &c.transactions
+                        .iter()
+                        .filter(|t| !t.to.is_empty())
+                        .map(|t| t.to[0].tx_ordinal)
+                        .collect::<Vec<_>>()
+                )
+            ),
+            o => o.lit(),
+        };
         self.coq_cases.push(format!(
-            "({}, {}, mkObs {} {} {} {} {})",
+            "({}, {}, mkObs {} {} {} {} {} {})",
             b_lit,
             gal::nlist(&ks_ids),
             o_lite,
             o_root_lite,
             o_client,
             o_root_client,
-            o_root_full
+            o_root_full,
+            o_client_ord
         ));
         // description + distribution
         let keep: Vec<bool> = full
@@ -1142,7 +1156,7 @@ async fn main() {
          Definition canon {A} (r : res A) : res A :=\n  \
            match r with Panic s => Panic (if (s =? P_ROOT_UNWRAP) || (s =? P_ROOT_EMPTY) then P_MERKLE_UNWRAP else s) | _ => r end.\n\
          Definition canon_obs (o : obs) : obs :=\n  \
-           mkObs (canon (o_lite o)) (canon (o_root_lite o)) (canon (o_client o)) (canon (o_root_client o)) (canon (o_root_full o)).\n\
+           mkObs (canon (o_lite o)) (canon (o_root_lite o)) (canon (o_client o)) (canon (o_root_client o)) (canon (o_root_full o)) (canon (o_client_ord o)).\n\
          Definition check (c : block * list N * obs) : bool :=\n  \
            let '(b, ks, o) := c in obs_eqb (canon_obs (observe b ks)) o.";
     let files = write_shards_with_defs(
